@@ -218,3 +218,35 @@ def craft(kind, e, rng, tries=12):
         if v is not None:
             return v
     return None
+
+
+def needles_decode(rng):
+    """32-byte strings that pass every decoding check but ONE, chosen so that a decoder which replaced that check by a
+    weaker-looking one would accept them.  Class 'nonsquare-on-curve': canonical, nonnegative s whose discriminant
+    u2*u1^2 is a NON-square, yet the decoding formulas evaluated with the root the square-root routine hands back
+    (v^2 u2 u1^2 = zeta) still give a point ON the curve — so "is the result on the curve" does not subsume was_square."""
+    out = []
+    z = zeta
+    oneS = [1, q - 1]                      # 1 - S
+    onePS = [1, 1]                         # 1 + S
+    u1sq = _pmul(oneS, oneS)
+    u2 = _psub(u1sq, [0, 4 * D % q])
+    ps2 = _pmul(onePS, onePS)
+    # -4 S z^2 u2 + (1+S)^2 z u1^2 - u1^2 u2 - 4 d S z^3 (1+S)^2 = 0   (S = s^2)
+    t1 = _pmul([0, (-4 * z * z) % q], u2)
+    t2 = [c * z % q for c in _pmul(ps2, u1sq)]
+    t3 = _pmul(u1sq, u2)
+    t4 = _pmul([0, 4 * D * pow(z, 3, q) % q], ps2)
+    n = max(len(t1), len(t2), len(t3), len(t4))
+    f = [0] * n
+    for t, sg in ((t1, 1), (t2, 1), (t3, -1), (t4, -1)):
+        for i, c in enumerate(t):
+            f[i] = (f[i] + sg * c) % q
+    for S in poly_roots(f, rng):
+        if S != 0 and leg(S) != 1:
+            continue
+        s = absq(sqrt(S))
+        ss = s * s % q; u1 = (1 - ss) % q; uu2 = (u1 * u1 - 4 * D * ss) % q
+        if leg(uu2 * u1 * u1 % q) == -1 or (uu2 * u1 * u1 % q != 0 and leg(uu2 * u1 * u1 % q) != 1):
+            out.append(('nonsquare-on-curve', s))
+    return out
